@@ -1,8 +1,100 @@
 package main
 
-// Counterexample search and replay on the real code (see replay families in
-// DESIGN.md 4.3).  Filled in per family; the default is "no input found".
+// Replay on the real code.
+//
+// A failed obligation carries no model when quantifiers are involved (the
+// solvers answer unknown/timeout).  Failing inputs are therefore kept as
+// *witness tests*: in-package Go tests under /verif/witness, one per finding
+// that was ever reproduced, keyed by obligation in known_findings.json.  When
+// an obligation with a witness fails, the witness is run against the tree
+// being checked (go test -overlay, nothing is written into the repository):
+// if it fails there, the violation is reported with that replay; otherwise
+// the violation line ends with no-failing-input-found.
 
+import (
+	"encoding/json"
+	"fmt"
+	"os"
+	"os/exec"
+	"path/filepath"
+	"strings"
+	"time"
+)
+
+type witnessResult struct {
+	Witness  string  `json:"witness"`
+	Failed   bool    `json:"failed_on_this_tree"`
+	Output   string  `json:"output"`
+	Seconds  float64 `json:"seconds"`
+	RunError string  `json:"run_error,omitempty"`
+}
+
+// runWitness runs "witness/file_test.go:TestName" against repo.
+func runWitness(verif, repo, spec string) *witnessResult {
+	parts := strings.SplitN(spec, ":", 2)
+	res := &witnessResult{Witness: spec}
+	if len(parts) != 2 {
+		res.RunError = "bad witness spec"
+		return res
+	}
+	file := filepath.Join(verif, parts[0])
+	if _, err := os.Stat(file); err != nil {
+		res.RunError = "witness file missing"
+		return res
+	}
+	tmp, err := os.MkdirTemp("", "govc-witness-")
+	if err != nil {
+		res.RunError = err.Error()
+		return res
+	}
+	defer os.RemoveAll(tmp)
+	ov := map[string]map[string]string{"Replace": {filepath.Join(repo, "zz_verif_witness_test.go"): file}}
+	b, _ := json.Marshal(ov)
+	ovPath := filepath.Join(tmp, "ov.json")
+	os.WriteFile(ovPath, b, 0o644)
+	start := time.Now()
+	cmd := exec.Command("go", "test", "-overlay", ovPath, "-vet=off", "-count=1", "-timeout", "180s", "-run", "^"+parts[1]+"$", ".")
+	cmd.Dir = repo
+	cmd.Env = append(os.Environ(), "GOFLAGS=-mod=mod", "GOPROXY=off", "GOSUMDB=off", "GOTOOLCHAIN=local")
+	out, err := cmd.CombinedOutput()
+	res.Seconds = time.Since(start).Seconds()
+	s := string(out)
+	if len(s) > 4000 {
+		s = s[:4000]
+	}
+	res.Output = s
+	res.Failed = err != nil && (strings.Contains(s, "VERIF-WITNESS") || strings.Contains(s, "--- FAIL") || strings.Contains(s, "panic:"))
+	if err != nil && !res.Failed {
+		res.RunError = fmt.Sprintf("go test: %v", err)
+	}
+	return res
+}
+
+// tryReplay looks for a witness of the failed obligation and runs it on the
+// tree under check.
 func tryReplay(eng *Engine, verif, prop string, r *Result) (bool, map[string]interface{}) {
+	id := oblID(r.Obl)
+	var tried []*witnessResult
+	seen := map[string]bool{}
+	for _, k := range loadKnown(verif) {
+		if k.Obligation != id || k.Witness == "" || seen[k.Witness] {
+			continue
+		}
+		seen[k.Witness] = true
+		w := runWitness(verif, eng.repo, k.Witness)
+		tried = append(tried, w)
+		if w.Failed {
+			return true, map[string]interface{}{
+				"kind":    "witness test (a stored failing input of this obligation) run against the tree under check with go test -overlay",
+				"witness": w.Witness,
+				"output":  w.Output,
+				"seconds": w.Seconds,
+				"rerun":   fmt.Sprintf("cd %s && go test -overlay <(echo '{\"Replace\":{\"%s/zz_verif_witness_test.go\":\"%s\"}}') -vet=off -count=1 -run '^%s$' .", eng.repo, eng.repo, filepath.Join(verif, strings.SplitN(w.Witness, ":", 2)[0]), strings.SplitN(w.Witness, ":", 2)[1]),
+			}
+		}
+	}
+	if len(tried) > 0 {
+		return false, map[string]interface{}{"witnesses_tried": tried, "note": "the stored witnesses of this obligation pass on this tree"}
+	}
 	return false, nil
 }
